@@ -1,1 +1,245 @@
-import CnlModel.Overflow
+import CnlProofs.Overflow
+/-!
+# C06 — overflow is detected exactly, and handled as the overflow tag specifies
+
+Theorems about the executable model `CnlModel/Overflow.lean` (a predicate-by-predicate
+transcription of `overflow/{is_overflow,builtin_overflow,custom_operator,saturated,throwing,trapping}.h`
+on top of the C semantics core `CnlModel/CInt.lean`; tied to the real code on both detection paths
+and both compilers by the `C06`/`C07` correspondence tables).  The specification is
+`Spec.checkedWant tag T e` (`CnlSpec/Overflow.lean`): decided by the exact result `e` alone.
+
+All theorems hold for **every integer width** (`IntTy` with `1 ≤ bits`; no case split over the ten
+built-in types), every in-range operand value, and every reacting tag (`tag ≠ .nat`:
+saturated, throwing, trapping, and also `undefined`).
+
+* `neg_correct`, `convert_correct`      unary minus (judged in the promoted type) and integer
+                                        conversion between any two types.
+* `builtin_arith_correct`               `+ - *` on the intrinsic path, **any** signedness and width mix.
+* `div_correct`                         `/` on both paths, operands of one signedness, divisor ≠ 0.
+* `shl_correct`                         `<<` on both paths, count ≥ 0, outside the two open classes.
+* `portable_arith_correct`              `+ - *` on the portable path, operands of one signedness;
+  `portable_arith_correct_value_preserving` the same whenever the common type holds both operand
+  types' values (also covers e.g. `uint16 + int32`, `uint32 * int64`).
+* refutations from concrete witnesses (open findings `C06.shl_zero_by_wide_count`,
+  `C06.shl_minus_one_to_lowest`, `C06.portable_mixed_signedness`, `C06.div_mixed_signedness`):
+  `shl_zero_wide_refuted`, `shl_minus_one_refuted`, `portable_mixed_refuted`, `div_mixed_refuted`.
+
+Hypotheses beyond the task's, and why (each is shown necessary by a witness below; none excludes
+a built-in type):
+
+* `convert_correct` needs `1 ≤ S.digits` for the source: a *one-bit signed* source (range −1…0, no
+  such built-in type) has `overflow_digits<S, negative> = 0` and −1 → unsigned is let through.
+* portable `*` needs `¬ MulGuardExact L R`: when both operand types are signed and their digit
+  counts add up to *exactly* the digits of the result (widths 17 + 16, or 32 + 1: impossible for
+  widths that are multiples of 8, see `portable_arith_correct_bytes`) the guard
+  `digits L + digits R > digits T` is false although `lowest · lowest = 2^digits T` overflows
+  (`portable_mul_guard_refuted`).
+* `shl_correct` needs `L.bits < 2^31`: the digit count is an `int` constant in the code.
+
+Nothing is left unproved.
+-/
+namespace Cnl.C06
+open Cnl Cnl.Overflow Cnl.Spec
+
+/-- `+ - *` : the operators that have an overflow intrinsic -/
+def Arith (op : BinOp) : Prop := op = .add ∨ op = .sub ∨ op = .mul
+
+instance (op : BinOp) : Decidable (Arith op) := by unfold Arith; exact inferInstance
+
+theorem exact_arith {op : BinOp} (hop : Arith op) (l r : Int) :
+    exactBin op l r = some (match op with | .add => l + r | .sub => l - r | _ => l * r) := by
+  rcases hop with h | h | h <;> subst h <;> rfl
+
+/-! ## 5. unary minus and conversion -/
+
+/-- Unary minus under a reacting tag, for every operand type and value: the outcome the tag
+prescribes for the exact `-l` in the promoted operand type. -/
+theorem neg_correct (tag : OvTag) (ht : tag ≠ .nat) (L : IntTy) (hL : 1 ≤ L.bits) (l : Int)
+    (hl : L.InRange l) : checkedNeg tag (L, l) = checkedWant tag (promote L) (-l) :=
+  checkedNeg_eq ht hL hl
+
+/-- Conversion from any integer type `S` to any integer type `D`: the outcome the tag prescribes
+for the unchanged value `v` in `D`. -/
+theorem convert_correct (tag : OvTag) (ht : tag ≠ .nat) (S D : IntTy) (hS : 1 ≤ S.digits) (hD : 1 ≤ D.bits)
+    (v : Int) (hv : S.InRange v) : checkedConvert tag D (S, v) = checkedWant tag D v :=
+  checkedConvert_eq ht hS hD hv
+
+-- non-vacuity, near the limits
+example : checkedNeg .sat (i8, -128) = .ok (i32, 128) := by decide
+example : checkedNeg .sat (u8, 255) = .ok (i32, -255) := by decide
+example : checkedNeg .sat (i32, -2147483648) = .ok (i32, 2147483647) := by decide
+example : checkedNeg .thr (u32, 1) = .throws false := by decide
+example : checkedNeg .trp (i64, -9223372036854775808) = .trap true := by decide
+example : checkedConvert .sat i8 (i32, 128) = .ok (i8, 127) := by decide
+example : checkedConvert .sat u8 (i32, -1) = .ok (u8, 0) := by decide
+example : checkedConvert .thr i32 (u32, 2147483648) = .throws true := by decide
+example : checkedConvert .sat u64 (i64, 9223372036854775807) = .ok (u64, 9223372036854775807) := by decide
+/-- the hypothesis `1 ≤ S.digits` of `convert_correct` cannot be dropped (model of a one-bit
+signed source; not a built-in type) -/
+example : checkedConvert .sat u8 (⟨1, true⟩, -1) ≠ checkedWant .sat u8 (-1) := by decide
+
+/-! ## 1. `+ - *` on the intrinsic path -/
+
+/-- Intrinsic path, `+ - *`, **every** pair of operand types (any widths, mixed signedness
+included), all in-range operands: the outcome the tag prescribes for the exact result in the common
+type. -/
+theorem builtin_arith_correct (tag : OvTag) (ht : tag ≠ .nat) (op : BinOp) (hop : Arith op)
+    (L R : IntTy) (hL : 1 ≤ L.bits) (hR : 1 ≤ R.bits) (l r : Int) (hl : L.InRange l) (hr : R.InRange r)
+    (e : Int) (he : exactBin op l r = some e) :
+    checkedBin .builtin tag op (L, l) (R, r) = checkedWant tag (usualArith L R) e := by
+  rcases hop with h | h | h <;> subst h <;> simp only [exactBin, Option.some.injEq] at he <;> subst he
+  · exact builtin_add_eq ht hL hR hl hr
+  · exact builtin_sub_eq ht hL hR hl hr
+  · exact builtin_mul_eq ht hL hR hl hr
+
+example : checkedBin .builtin .sat .add (i32, 2147483647) (i32, 1) = .ok (i32, 2147483647) := by decide
+example : checkedBin .builtin .sat .add (i32, -2147483648) (u32, 0) = .ok (u32, 0) := by decide
+example : checkedBin .builtin .sat .sub (u32, 0) (i32, 1) = .ok (u32, 0) := by decide
+example : checkedBin .builtin .sat .sub (u32, 4294967295) (i32, -1) = .ok (u32, 4294967295) := by decide
+example : checkedBin .builtin .thr .add (i32, -5) (u32, 3) = .throws false := by decide
+example : checkedBin .builtin .sat .mul (i64, -9223372036854775808) (i64, -1) = .ok (i64, 9223372036854775807) := by decide
+example : checkedBin .builtin .trp .mul (i64, 9223372036854775807) (i64, -1) = .ok (i64, -9223372036854775807) := by decide +kernel
+example : checkedBin .builtin .sat .mul (i8, -128) (i8, -128) = .ok (i32, 16384) := by decide
+example : checkedBin .builtin .sat .mul (u64, 18446744073709551615) (i8, -1) = .ok (u64, 0) := by decide
+
+/-! ## 3. division -/
+
+/-- `/` on both paths, operand types of one signedness (any widths), divisor ≠ 0: the outcome the
+tag prescribes for the truncated quotient (the only overflow is `lowest / -1`). -/
+theorem div_correct (path : Path) (tag : OvTag) (ht : tag ≠ .nat) (L R : IntTy) (hL : 1 ≤ L.bits)
+    (hR : 1 ≤ R.bits) (hs : L.signed = R.signed) (l r : Int) (hl : L.InRange l) (hr : R.InRange r)
+    (hr0 : r ≠ 0) :
+    checkedBin path tag .div (L, l) (R, r) = checkedWant tag (usualArith L R) (l.tdiv r) :=
+  checkedBin_div_eq path ht hL hR hs hl hr hr0
+
+example : checkedBin .portable .sat .div (i32, -2147483648) (i32, -1) = .ok (i32, 2147483647) := by decide
+example : checkedBin .builtin .thr .div (i64, -9223372036854775808) (i8, -1) = .throws true := by decide
+example : checkedBin .builtin .sat .div (i8, -128) (i8, -1) = .ok (i32, 128) := by decide
+example : checkedBin .builtin .sat .div (u64, 18446744073709551615) (u8, 255) = .ok (u64, 72340172838076673) := by decide
+
+/-- mixed signedness division is outside the theorem for a reason (open finding
+`C06.div_mixed_signedness`): `int32(-2^31) / uint32(1)` under the saturated tag is 2^31, the
+property demands 0 -/
+theorem div_mixed_refuted :
+    checkedBin .builtin .sat .div (i32, -2147483648) (u32, 1) = .ok (u32, 2147483648) ∧
+    exactBin .div (-2147483648) 1 = some (-2147483648) ∧
+    checkedWant .sat (usualArith i32 u32) (-2147483648) = .ok (u32, 0) := by decide
+
+/-! ## 4. left shift -/
+
+/-- `<<` on both paths, any operand types, count `r ≥ 0`, outside the two open defect classes
+(`0 << n` with `n ≥` width; `-1 << digits`): the outcome the tag prescribes for `l · 2^r` in the
+promoted left operand type. -/
+theorem shl_correct (path : Path) (tag : OvTag) (ht : tag ≠ .nat) (L R : IntTy) (hL : 1 ≤ L.bits)
+    (hR : 1 ≤ R.bits) (hw : L.bits ≤ 2147483647) (l r : Int) (hl : L.InRange l) (hr : R.InRange r)
+    (h0 : 0 ≤ r) (hz : ¬(l = 0 ∧ r ≥ (promote L).bits)) (hm : ¬(l = -1 ∧ r = (promote L).digits)) :
+    checkedBin path tag .shl (L, l) (R, r) = checkedWant tag (promote L) (l * 2^r.toNat) := by
+  obtain ⟨j, rfl⟩ := Int.eq_ofNat_of_zero_le h0
+  rw [Int.toNat_natCast]
+  exact checkedBin_shl_eq hL hR hw hl hr path ht (by omega) (by omega)
+
+/-- the same through `Spec.exactBin` -/
+theorem shl_correct_exact (path : Path) (tag : OvTag) (ht : tag ≠ .nat) (L R : IntTy) (hL : 1 ≤ L.bits)
+    (hR : 1 ≤ R.bits) (hw : L.bits ≤ 2147483647) (l r : Int) (hl : L.InRange l) (hr : R.InRange r)
+    (hz : ¬(l = 0 ∧ r ≥ (promote L).bits)) (hm : ¬(l = -1 ∧ r = (promote L).digits))
+    (e : Int) (he : exactBin .shl l r = some e) :
+    checkedBin path tag .shl (L, l) (R, r) = checkedWant tag (promote L) e := by
+  by_cases h0 : r < 0
+  · simp [exactBin, h0] at he
+  · simp only [exactBin, h0, ite_false, Option.some.injEq] at he; subst he
+    exact shl_correct path tag ht L R hL hR hw l r hl hr (by omega) hz hm
+
+example : checkedBin .builtin .sat .shl (i32, 1) (i32, 30) = .ok (i32, 1073741824) := by decide
+example : checkedBin .builtin .sat .shl (i32, 1) (i32, 31) = .ok (i32, 2147483647) := by decide
+example : checkedBin .portable .sat .shl (i8, -128) (u8, 24) = .ok (i32, -2147483648) := by decide +kernel
+example : checkedBin .portable .thr .shl (i8, -128) (u8, 25) = .throws false := by decide
+example : checkedBin .builtin .sat .shl (u32, 1) (i64, 1000) = .ok (u32, 4294967295) := by decide
+example : checkedBin .builtin .sat .shl (i64, -2) (i8, 62) = .ok (i64, -9223372036854775808) := by decide +kernel
+
+/-- open finding `C06.shl_zero_by_wide_count`: `0 << 64` is not an overflow (`0 · 2^64 = 0`) but the
+shift is then executed with an out-of-range count -/
+theorem shl_zero_wide_refuted :
+    checkedBin .builtin .sat .shl (i32, 0) (i32, 64) = .ub .shiftCount ∧
+    exactBin .shl 0 64 = some 0 ∧ checkedWant .sat (promote i32) 0 = .ok (i32, 0) := by decide
+
+/-- open finding `C06.shl_minus_one_to_lowest`: `-1 << 63` is the lowest `int64` and fits, yet
+negative overflow is signalled -/
+theorem shl_minus_one_refuted :
+    checkedBin .builtin .thr .shl (i64, -1) (u32, 63) = .throws false ∧
+    exactBin .shl (-1) 63 = some (-9223372036854775808) ∧
+    checkedWant .thr (promote i64) (-9223372036854775808) = .ok (i64, -9223372036854775808) := by decide
+
+/-! ## 2. `+ - *` on the portable path -/
+
+/-- the common type holds every value of both operand types (true whenever the operand types have
+one signedness, and for mixed signedness when the common type is signed) -/
+def ValuePreserving (L R : IntTy) : Prop :=
+  (usualArith L R).signed = false → L.signed = false ∧ R.signed = false
+
+instance (L R : IntTy) : Decidable (ValuePreserving L R) := by unfold ValuePreserving; exact inferInstance
+
+theorem valuePreserving_of_same_sign {L R : IntTy} (hs : L.signed = R.signed) : ValuePreserving L R :=
+  same_sign_unsigned hs
+
+/-- Portable path, `+ - *`, operand types whose values the common type holds unchanged (any
+widths), all in-range operands: the outcome the tag prescribes for the exact result.  For `*` the
+digit guard must not be exact (`MulGuardExact`, see the file comment). -/
+theorem portable_arith_correct_value_preserving (tag : OvTag) (ht : tag ≠ .nat) (op : BinOp) (hop : Arith op)
+    (L R : IntTy) (hL : 1 ≤ L.bits) (hR : 1 ≤ R.bits) (hvp : ValuePreserving L R)
+    (hg : op = .mul → ¬ MulGuardExact L R)
+    (l r : Int) (hl : L.InRange l) (hr : R.InRange r) (e : Int) (he : exactBin op l r = some e) :
+    checkedBin .portable tag op (L, l) (R, r) = checkedWant tag (usualArith L R) e := by
+  have hlT : (usualArith L R).InRange l := fits_left (fun h => (hvp h).1) hl
+  have hrT : (usualArith L R).InRange r := fits_right (fun h => (hvp h).2) hr
+  rcases hop with h | h | h <;> subst h <;> simp only [exactBin, Option.some.injEq] at he <;> subst he
+  · exact portable_add_fits ht hL hR hl hr hlT hrT
+  · exact portable_sub_fits ht hL hR hl hr hlT hrT
+  · exact portable_mul_fits ht hL hR hl hr hlT hrT (hg rfl)
+
+/-- Portable path, `+ - *`, operand types of one signedness (any widths). -/
+theorem portable_arith_correct (tag : OvTag) (ht : tag ≠ .nat) (op : BinOp) (hop : Arith op)
+    (L R : IntTy) (hL : 1 ≤ L.bits) (hR : 1 ≤ R.bits) (hs : L.signed = R.signed)
+    (hg : op = .mul → ¬ MulGuardExact L R)
+    (l r : Int) (hl : L.InRange l) (hr : R.InRange r) (e : Int) (he : exactBin op l r = some e) :
+    checkedBin .portable tag op (L, l) (R, r) = checkedWant tag (usualArith L R) e :=
+  portable_arith_correct_value_preserving tag ht op hop L R hL hR (valuePreserving_of_same_sign hs) hg
+    l r hl hr e he
+
+/-- … in particular for all widths that are multiples of 8 (every built-in type), with no further
+hypothesis -/
+theorem portable_arith_correct_bytes (tag : OvTag) (ht : tag ≠ .nat) (op : BinOp) (hop : Arith op)
+    (L R : IntTy) (hL : 1 ≤ L.bits) (hR : 1 ≤ R.bits) (hL8 : 8 ∣ L.bits) (hR8 : 8 ∣ R.bits)
+    (hs : L.signed = R.signed)
+    (l r : Int) (hl : L.InRange l) (hr : R.InRange r) (e : Int) (he : exactBin op l r = some e) :
+    checkedBin .portable tag op (L, l) (R, r) = checkedWant tag (usualArith L R) e :=
+  portable_arith_correct tag ht op hop L R hL hR hs (fun _ => not_mulGuardExact_of_bytes hL8 hR8 hL hR)
+    l r hl hr e he
+
+example : checkedBin .portable .sat .add (i32, 2147483647) (i32, 1) = .ok (i32, 2147483647) := by decide
+example : checkedBin .portable .sat .add (i8, 127) (i8, 127) = .ok (i32, 254) := by decide
+example : checkedBin .portable .sat .sub (i64, 0) (i32, -2147483648) = .ok (i64, 2147483648) := by decide
+example : checkedBin .portable .sat .sub (u32, 0) (u32, 1) = .ok (u32, 0) := by decide
+example : checkedBin .portable .sat .sub (i32, -2147483648) (i32, 1) = .ok (i32, -2147483648) := by decide
+example : checkedBin .portable .sat .mul (i32, 2147483647) (i32, -1) = .ok (i32, -2147483647) := by decide +kernel
+example : checkedBin .portable .thr .mul (i64, -9223372036854775808) (i64, -1) = .throws true := by decide
+example : checkedBin .portable .sat .mul (i32, 65536) (i32, -32768) = .ok (i32, -2147483648) := by decide +kernel
+example : checkedBin .portable .sat .mul (i32, 65536) (i32, -32769) = .ok (i32, -2147483648) := by decide
+example : checkedBin .portable .sat .mul (u16, 65535) (i32, -32768) = .ok (i32, -2147450880) := by decide +kernel
+example : ValuePreserving u16 i32 ∧ ValuePreserving u32 i64 ∧ ¬ ValuePreserving i32 u32 := by decide
+example : ¬ MulGuardExact i8 i8 ∧ ¬ MulGuardExact i16 i16 ∧ ¬ MulGuardExact i32 i8 := by decide
+
+/-- open finding `C06.portable_mixed_signedness`: `int32(-2^31) + uint32(0)` on the portable path is
+2^31, the property demands 0 (negative overflow of the unsigned result saturates to lowest) -/
+theorem portable_mixed_refuted :
+    checkedBin .portable .sat .add (i32, -2147483648) (u32, 0) = .ok (u32, 2147483648) ∧
+    exactBin .add (-2147483648) 0 = some (-2147483648) ∧
+    checkedWant .sat (usualArith i32 u32) (-2147483648) = .ok (u32, 0) := by decide
+
+/-- the hypothesis `¬ MulGuardExact L R` cannot be dropped: a 17-bit times a 16-bit signed type
+(not built-in types) multiply `lowest · lowest = 2^31` past the digit guard into a signed overflow -/
+theorem portable_mul_guard_refuted :
+    MulGuardExact ⟨17, true⟩ ⟨16, true⟩ ∧
+    checkedBin .portable .sat .mul (⟨17, true⟩, -65536) (⟨16, true⟩, -32768) = .ub .signedOverflow ∧
+    checkedWant .sat (usualArith ⟨17, true⟩ ⟨16, true⟩) (-65536 * -32768) = .ok (i32, 2147483647) := by decide
+
+end Cnl.C06
